@@ -238,10 +238,18 @@ func (t *xptr) block(list []ast.Stmt, lc *xpLoop, k xpK) []string {
 		if x.Tok == token.CONTINUE && x.Label == nil && lc != nil {
 			return lc.recur()
 		}
+		if x.Tok == token.BREAK && x.Label == nil && lc != nil && lc.done != nil {
+			return lc.done() // the loop function answers the current values
+		}
 		t.fail(s, "%s", x.Tok)
 	case *ast.IfStmt:
 		return t.ifStmt(x, lc, rest)
 	case *ast.SwitchStmt:
+		if id, ok := x.Tag.(*ast.Ident); ok && x.Init == nil {
+			if _, isEnum := t.enums[t.typeName(t.info.TypeOf(id))]; isEnum {
+				return t.enumSwitch(x, id, lc, rest)
+			}
+		}
 		return t.kindSwitch(x, lc, rest)
 	case *ast.RangeStmt:
 		return append(t.rangeLoop(x), rest()...)
@@ -268,7 +276,15 @@ func xpParenIf(s string) string {
 
 func (t *xptr) ifStmt(x *ast.IfStmt, lc *xpLoop, rest xpK) []string {
 	if x.Init != nil {
-		t.fail(x, "if with an init statement")
+		// `if v, ok := m[k]; ok {` : the init statement first (its variables stay visible, harmless)
+		as, ok := x.Init.(*ast.AssignStmt)
+		if !ok || as.Tok != token.DEFINE {
+			t.fail(x, "if with an init statement that is not a definition")
+		}
+		pre := t.assign(as)
+		y := *x
+		y.Init = nil
+		return append(pre, t.ifStmt(&y, lc, rest)...)
 	}
 	var elseList []ast.Stmt
 	if x.Else != nil {
@@ -353,12 +369,25 @@ func (t *xptr) kindSwitch(x *ast.SwitchStmt, lc *xpLoop, rest xpK) []string {
 	}
 	tag, ok := x.Tag.(*ast.CallExpr)
 	if !ok {
-		t.fail(x, "switch on %s (only on the Kind() of a signal)", exprStr(x.Tag))
+		t.fail(x, "switch on %s (only on the Kind() of a signal / the Type() of an attribute / an enum variable)", exprStr(x.Tag))
 	}
 	sel, ok := tag.Fun.(*ast.SelectorExpr)
+	if !ok {
+		t.fail(x, "switch on %s", exprStr(x.Tag))
+	}
 	subj, ok2 := sel.X.(*ast.Ident)
-	if !ok || !ok2 || sel.Sel.Name != "Kind" || t.varOf(subj).kind != "Sig" {
-		t.fail(x, "switch on %s (only on the Kind() of a signal variable)", exprStr(x.Tag))
+	if !ok2 {
+		t.fail(x, "switch on %s", exprStr(x.Tag))
+	}
+	table, all, optional := xpKinds, []string{"SignalKindStandard", "SignalKindEnum", "SignalKindMultiplexer"}, false
+	switch {
+	case sel.Sel.Name == "Kind" && t.varOf(subj).kind == "Sig":
+	case sel.Sel.Name == "Type" && t.varOf(subj).kind == "Attr":
+		// a case of an attribute switch may do without the conversion (it then reads the attribute only
+		// through the interface)
+		table, all, optional = xpAttrKinds, []string{"AttributeTypeString", "AttributeTypeInteger", "AttributeTypeFloat", "AttributeTypeEnum"}, true
+	default:
+		t.fail(x, "switch on %s (only on the Kind() of a signal / the Type() of an attribute variable)", exprStr(x.Tag))
 	}
 	lines := []string{"match " + t.varOf(subj).lean + " with"}
 	done := map[string]bool{}
@@ -370,11 +399,26 @@ func (t *xptr) kindSwitch(x *ast.SwitchStmt, lc *xpLoop, rest xpK) []string {
 			t.fail(c, "default / multi-valued case")
 		}
 		id, ok := c.List[0].(*ast.Ident)
-		if !ok || xpKinds[id.Name][0] == "" || done[id.Name] {
+		if !ok || table[id.Name][0] == "" || done[id.Name] {
 			t.fail(c, "case %s", exprStr(c.List[0]))
 		}
-		kd := xpKinds[id.Name]
+		kd := table[id.Name]
 		done[id.Name] = true
+		converts := false
+		if len(c.Body) >= 1 {
+			if as, ok := c.Body[0].(*ast.AssignStmt); ok && len(as.Rhs) == 1 && strings.HasPrefix(exprStr(as.Rhs[0]), subj.Name+".To") {
+				converts = true
+			}
+		}
+		if !converts {
+			if !optional {
+				t.fail(c, "case %s does not start with the conversion %s()", id.Name, kd[0])
+			}
+			pat := "| ." + kd[1] + " _"
+			lines = append(lines, pat+" =>")
+			lines = append(lines, xpInd(t.block(c.Body, lc, rest))...)
+			continue
+		}
 		if len(c.Body) < 2 {
 			t.fail(c, "case %s does not start with the conversion %s()", id.Name, kd[0])
 		}
@@ -397,10 +441,10 @@ func (t *xptr) kindSwitch(x *ast.SwitchStmt, lc *xpLoop, rest xpK) []string {
 		lines = append(lines, pat+" =>")
 		lines = append(lines, xpInd(t.block(c.Body[2:], lc, rest))...)
 	}
-	for _, k := range []string{"SignalKindStandard", "SignalKindEnum", "SignalKindMultiplexer"} {
+	for _, k := range all {
 		if !done[k] {
-			pat := "| ." + xpKinds[k][1] + " _"
-			if xpKinds[k][2] == "MuxSig" {
+			pat := "| ." + table[k][1] + " _"
+			if table[k][2] == "MuxSig" {
 				pat += " _"
 			}
 			lines = append(lines, pat+" =>")
@@ -410,7 +454,95 @@ func (t *xptr) kindSwitch(x *ast.SwitchStmt, lc *xpLoop, rest xpK) []string {
 	return lines
 }
 
+// switch v { case C: .. } on a variable of an enum type, without jumps: the assigned variables as a tuple
+func (t *xptr) enumSwitch(x *ast.SwitchStmt, tag *ast.Ident, lc *xpLoop, rest xpK) []string {
+	en := t.enums[t.typeName(t.info.TypeOf(tag))]
+	var all []ast.Stmt
+	for _, cc := range x.Body.List {
+		all = append(all, cc.(*ast.CaseClause).Body...)
+	}
+	if t.jumps(all) {
+		t.fail(x, "a switch on an enum variable with a jump / a possible panic inside")
+	}
+	var names []string
+	for _, o := range t.assigned(all, x.Pos()) {
+		names = append(names, t.vars[o].lean)
+	}
+	if t.facts(x).st {
+		names = append(names, "st")
+	}
+	if len(names) == 0 {
+		t.fail(x, "a switch without an effect in the model")
+	}
+	tuple := func() []string { return []string{xpTuple(names)} }
+	lines := []string{"let " + xpTuple(names) + " :=", "  match " + t.varOf(tag).lean + " with"}
+	before := t.flags()
+	after := t.flags()
+	done := map[string]bool{}
+	for _, cc := range x.Body.List {
+		c := cc.(*ast.CaseClause)
+		if len(c.List) != 1 {
+			t.fail(c, "default / multi-valued case")
+		}
+		cn := ""
+		switch e := c.List[0].(type) {
+		case *ast.Ident:
+			cn = e.Name
+		case *ast.SelectorExpr:
+			cn = e.Sel.Name
+		}
+		ctor, ok := en.consts[cn]
+		if !ok || done[cn] {
+			t.fail(c, "case %s", exprStr(c.List[0]))
+		}
+		done[cn] = true
+		t.setFlags(before)
+		lines = append(lines, "  | "+en.lean+"."+ctor+" =>")
+		lines = append(lines, xpInd(xpInd(t.block(c.Body, lc, tuple)))...)
+		for v, f := range t.flags() {
+			o := after[v]
+			after[v] = [2]bool{o[0] || f[0], o[1] || f[1]}
+		}
+	}
+	if len(done) < len(en.consts) {
+		lines = append(lines, "  | _ => "+xpTuple(names))
+	}
+	t.setFlags(after)
+	return append(lines, rest()...)
+}
+
+// assign: type assertions `v.(T)` of the right-hand side are evaluated first (they can panic)
 func (t *xptr) assign(x *ast.AssignStmt) []string {
+	var pre []string
+	for _, r := range x.Rhs {
+		ast.Inspect(r, func(n ast.Node) bool {
+			ta, ok := n.(*ast.TypeAssertExpr)
+			if !ok {
+				return true
+			}
+			if len(pre) > 0 || ta.Type == nil {
+				t.fail(ta, "more than one type assertion in a statement / a type switch")
+			}
+			l, k, ok := t.model(ta.X)
+			if !ok || k != "AnyVal" {
+				t.fail(ta, "type assertion on %s", exprStr(ta.X))
+			}
+			fn := map[string]string{"string": "asStr", "int": "asInt", "float64": "asFloat"}[t.typeName(t.info.TypeOf(ta.Type))]
+			if fn == "" {
+				t.fail(ta, "type assertion to %s", exprStr(ta.Type))
+			}
+			if t.hoisted == nil {
+				t.hoisted = map[*ast.TypeAssertExpr]string{}
+			}
+			t.hoisted[ta] = "v_"
+			pre = append(pre, "bind ("+fn+" "+l+") fun v_ =>")
+			return false
+		})
+	}
+	return append(pre, t.assign0(x)...)
+}
+
+func (t *xptr) assign0(x *ast.AssignStmt) []string {
 	if x.Tok != token.DEFINE && x.Tok != token.ASSIGN {
 		t.fail(x, "assignment operator %s", x.Tok)
 	}
@@ -439,6 +571,9 @@ func (t *xptr) assign(x *ast.AssignStmt) []string {
 			t.fail(l, "assignment to %s", exprStr(l))
 		}
 		if id.Name == "_" {
+			if len(x.Lhs) == 2 {
+				return "_"
+			}
 			t.fail(l, "blank identifier")
 		}
 		if define && t.info.Defs[id] != nil {
@@ -777,12 +912,12 @@ func (t *xptr) rangeLoop(x *ast.RangeStmt) []string {
 		return name + " " + strings.Join(a, " ")
 	}
 	// the body returns through the loop function, not through the enclosing Go function
-	lc := &xpLoop{recur: func() []string { return []string{recArgs(true)} }}
-	body := t.block(x.Body.List, lc, lc.recur)
 	done := xpTuple(results)
 	if f.panics {
 		done = ".val " + done
 	}
+	lc := &xpLoop{recur: func() []string { return []string{recArgs(true)} }, done: func() []string { return []string{done} }}
+	body := t.block(x.Body.List, lc, lc.recur)
 	lines := []string{"def " + name + " " + strings.Join(params, " ") + " : " + rt + " :=",
 		"  match rest_ with", "  | [] => " + done, "  | " + valVar.lean + " :: rest_ =>"}
 	for _, l := range body {
